@@ -69,6 +69,17 @@ def readByte : List Int → Except Err (Int × List Int)
   | [] => .error .EOFError
   | b :: rest => .ok (b, rest)
 
+/-- a message in a track as far as `tracks.py` looks at it: an opaque identity (everything `copy(time=…)` keeps),
+    whether its type is `end_of_track`, and its time -/
+structure TMsg where
+  id : Nat
+  eot : Bool
+  time : Int
+  deriving DecidableEq, Repr, Inhabited
+
+/-- `messages.sort(key=lambda msg: msg.time)`: CPython's `list.sort` is stable -/
+def sortByTime (ms : List TMsg) : List TMsg := ms.mergeSort (fun a b => decide (a.time ≤ b.time))
+
 /-- `len(xs)` -/
 def len {α} (xs : List α) : Int := xs.length
 
